@@ -268,55 +268,55 @@ theorem absorbStmt : (s : Stmt) → (cls : Option (List Expr × List Expr)) →
     rw [cSuite_filterSuite c hc _ q hq hz (hqc _) (hzc _), absorbBody body _]
   | .for_ a tg it body orelse, cls => by
     simp only [travStmt, dropT_suiteF, dropT_stmtF, dropT_funcBodyF, cStmt]
-    rw [cSuite_filterSuite c hc none q hq hz (hqc none) (hzc none), absorbBody body none]
+    rw [cSuite_filterSuite c hc cls q hq hz (hqc cls) (hzc cls), absorbBody body cls]
     cases orelse with
     | nil => simp [cBody]
     | cons o os =>
       simp only [List.isEmpty_cons, Bool.false_eq_true, if_false]
-      rw [cSuite_filterSuite c hc none q hq hz (hqc none) (hzc none), absorbBody (o :: os) none]
+      rw [cSuite_filterSuite c hc cls q hq hz (hqc cls) (hzc cls), absorbBody (o :: os) cls]
   | .while_ t body orelse, cls => by
     simp only [travStmt, dropT_suiteF, dropT_stmtF, dropT_funcBodyF, cStmt]
-    rw [cSuite_filterSuite c hc none q hq hz (hqc none) (hzc none), absorbBody body none]
+    rw [cSuite_filterSuite c hc cls q hq hz (hqc cls) (hzc cls), absorbBody body cls]
     cases orelse with
     | nil => simp [cBody]
     | cons o os =>
       simp only [List.isEmpty_cons, Bool.false_eq_true, if_false]
-      rw [cSuite_filterSuite c hc none q hq hz (hqc none) (hzc none), absorbBody (o :: os) none]
+      rw [cSuite_filterSuite c hc cls q hq hz (hqc cls) (hzc cls), absorbBody (o :: os) cls]
   | .if_ t body orelse, cls => by
     simp only [travStmt, dropT_suiteF, dropT_stmtF, dropT_funcBodyF, cStmt]
-    rw [cSuite_filterSuite c hc none q hq hz (hqc none) (hzc none), absorbBody body none]
+    rw [cSuite_filterSuite c hc cls q hq hz (hqc cls) (hzc cls), absorbBody body cls]
     cases orelse with
     | nil => simp [cBody]
     | cons o os =>
       simp only [List.isEmpty_cons, Bool.false_eq_true, if_false]
-      rw [cSuite_filterSuite c hc none q hq hz (hqc none) (hzc none), absorbBody (o :: os) none]
+      rw [cSuite_filterSuite c hc cls q hq hz (hqc cls) (hzc cls), absorbBody (o :: os) cls]
   | .with_ a items body, cls => by
     simp only [travStmt, dropT_suiteF, dropT_stmtF, dropT_funcBodyF, cStmt]
-    rw [cSuite_filterSuite c hc none q hq hz (hqc none) (hzc none), absorbBody body none]
+    rw [cSuite_filterSuite c hc cls q hq hz (hqc cls) (hzc cls), absorbBody body cls]
   | .try_ false body hs orelse fin, cls => by
     simp only [travStmt, dropT_suiteF, dropT_stmtF, dropT_funcBodyF, cStmt]
-    rw [cSuite_filterSuite c hc none q hq hz (hqc none) (hzc none), absorbBody body none, absorbHandlers hs]
-    have ho : cSuite c false (cBody c none (if orelse.isEmpty then [] else filterSuite q false (travBody (dropT q) orelse)))
-        = cSuite c false (cBody c none orelse) := by
+    rw [cSuite_filterSuite c hc cls q hq hz (hqc cls) (hzc cls), absorbBody body cls, absorbHandlers hs cls]
+    have ho : cSuite c false (cBody c cls (if orelse.isEmpty then [] else filterSuite q false (travBody (dropT q) orelse)))
+        = cSuite c false (cBody c cls orelse) := by
       cases orelse with
       | nil => simp [cBody]
       | cons o os =>
         simp only [List.isEmpty_cons, Bool.false_eq_true, if_false]
-        rw [cSuite_filterSuite c hc none q hq hz (hqc none) (hzc none), absorbBody (o :: os) none]
-    have hf : cSuite c false (cBody c none (if fin.isEmpty then [] else filterSuite q false (travBody (dropT q) fin)))
-        = cSuite c false (cBody c none fin) := by
+        rw [cSuite_filterSuite c hc cls q hq hz (hqc cls) (hzc cls), absorbBody (o :: os) cls]
+    have hf : cSuite c false (cBody c cls (if fin.isEmpty then [] else filterSuite q false (travBody (dropT q) fin)))
+        = cSuite c false (cBody c cls fin) := by
       cases fin with
       | nil => simp [cBody]
       | cons o os =>
         simp only [List.isEmpty_cons, Bool.false_eq_true, if_false]
-        rw [cSuite_filterSuite c hc none q hq hz (hqc none) (hzc none), absorbBody (o :: os) none]
+        rw [cSuite_filterSuite c hc cls q hq hz (hqc cls) (hzc cls), absorbBody (o :: os) cls]
     rw [ho, hf]
   | .try_ true body hs orelse fin, cls => by
     simp only [travStmt, dropT_suiteF, dropT_stmtF, dropT_funcBodyF, cStmt]
-    rw [absorbBody body none, absorbHandlers hs, absorbBody orelse none, absorbBody fin none]
+    rw [absorbBody body cls, absorbHandlers hs cls, absorbBody orelse cls, absorbBody fin cls]
   | .match_ s cases, cls => by
     simp only [travStmt, dropT_suiteF, dropT_stmtF, dropT_funcBodyF, cStmt]
-    rw [absorbCases cases]
+    rw [absorbCases cases cls]
   | .return_ v, cls => by simp [travStmt]
   | .delete ts, cls => by simp [travStmt]
   | .assign ts v, cls => by simp [travStmt]
@@ -339,16 +339,18 @@ theorem absorbBody : (b : List Stmt) → (cls : Option (List Expr × List Expr))
   | s :: ss, cls => by
     simp only [travBody, cBody]
     rw [absorbStmt s cls, absorbBody ss cls]
-theorem absorbHandlers : (hs : List Handler) → cHandlers c (travHandlers (dropT q) hs) = cHandlers c hs
-  | [] => by simp [travHandlers, cHandlers]
-  | .mk ty n body :: hs => by
+theorem absorbHandlers : (hs : List Handler) → (cls : Option (List Expr × List Expr)) →
+    cHandlers c cls (travHandlers (dropT q) hs) = cHandlers c cls hs
+  | [], cls => by simp [travHandlers, cHandlers]
+  | .mk ty n body :: hs, cls => by
     simp only [travHandlers, cHandlers]
-    rw [absorbBody body none, absorbHandlers hs]
-theorem absorbCases : (cs : List MatchCase) → cCases c (travCases (dropT q) cs) = cCases c cs
-  | [] => by simp [travCases, cCases]
-  | .mk p g body :: cs => by
+    rw [absorbBody body cls, absorbHandlers hs cls]
+theorem absorbCases : (cs : List MatchCase) → (cls : Option (List Expr × List Expr)) →
+    cCases c cls (travCases (dropT q) cs) = cCases c cls cs
+  | [], cls => by simp [travCases, cCases]
+  | .mk p g body :: cs, cls => by
     simp only [travCases, cCases]
-    rw [absorbBody body none, absorbCases cs]
+    rw [absorbBody body cls, absorbCases cs cls]
 end
 
 end Absorb
